@@ -13,7 +13,7 @@ import C16u
 def histories(ctx):
     rnd = random.Random(ctx.seed + 17)
     hs = dict(C16u.workloads(ctx))
-    for r in range(24 if ctx.thorough else 4):
+    for r in range(40 if ctx.thorough else 10):
         ops, ver = [], {}
         for _ in range(rnd.randint(3, 5)):                       # DESIGN: all histories <= 5 of store/overwrite/purge
             o = rnd.randint(1, 3)
